@@ -118,6 +118,66 @@ def interval_of_arg(arg, fn, alt, tests, m, cls, depth=0):
     return iv_eval(arg, env, m, cls)
 
 
+def host_fade_kernel(hm_rgb):
+    """(host_value(cur, goal, index, steps), text of the step loop's iterator) for RGBLed.fade: the body of
+    `for current, goal in zip(start, target)` is evaluated by the checker's interpreter and appends one value"""
+    from .. import dl
+    from ..core import AnalysisError
+    hf = hm_rgb.func("RGBLed.fade")
+    chan = [n for n in walk_local(hf) if isinstance(n, ast.For) and norm(n.iter) == "zip(start, target)" and norm(n.target) in ("current, goal", "(current, goal)")]
+    if len(chan) != 1:
+        raise AnalysisError("RGBLed.fade: per-channel interpolation loop `for current, goal in zip(start, target)` not found")
+    step_loop = [n for n in walk_local(hf) if isinstance(n, ast.For) and any(c is chan[0] for c in ast.walk(n)) and n is not chan[0]]
+    idx_name = norm(step_loop[0].target) if step_loop else "index"
+    hit = dl.Interp(hm_rgb)
+
+    def host_value(cur, goal, index, steps_):
+        env = dl.Env(None)
+        for k_, v_ in (("current", cur), ("goal", goal), (idx_name, index), ("steps", steps_), ("interpolated", [])):
+            dict.__setitem__(env, k_, v_)
+        hit.steps = 0
+        try:
+            hit._block(chan[0].body, env)
+        except dl.Unsupported as e:
+            raise AnalysisError(f"RGBLed.fade interpolation left the evaluable subset: {e}")
+        out_ = env["interpolated"]
+        if len(out_) != 1:
+            raise AnalysisError("RGBLed.fade interpolation does not append exactly one value per channel")
+        return out_[0]
+
+    return host_value, (norm(step_loop[0].iter) if step_loop else None)
+
+
+def servo_maps(r, m):
+    """host Servo: both conversions are the linear map through the configured end points"""
+    a2p, p2a = m.func("Servo._angle_to_pulse"), m.func("Servo._pulse_to_angle")
+    # attributes the constructor derives from the four end points (a cached slope, a span) are expanded
+    init = m.func("Servo.__init__")
+    stores = {}
+    for n in walk_local(init):
+        if isinstance(n, ast.Assign) and len(n.targets) == 1 and isinstance(n.targets[0], ast.Attribute) and norm(n.targets[0].value) == "self":
+            stores.setdefault(norm(n.targets[0]), []).append(n.value)
+    params = {a.arg for a in init.args.args + init.args.kwonlyargs}
+    base = {}      # constructor parameter -> the attribute that keeps it
+    for attr, vals in stores.items():
+        if len(vals) == 1:
+            v = vals[0].args[0] if isinstance(vals[0], ast.Call) and call_name(vals[0]) == "float" and len(vals[0].args) == 1 else vals[0]
+            if isinstance(v, ast.Name) and v.id in params:
+                base[v.id] = ast.parse(attr, mode="eval").body
+    derived = {attr: vals[0] for attr, vals in stores.items() if len(vals) == 1 and attr not in {norm(b) for b in base.values()}}
+    derived.update({p_: a_ for p_, a_ in base.items()})
+    for f, src_, o in ((a2p, "angle", "self._min_pulse + (angle - self._min_angle) / (self._max_angle - self._min_angle) * (self._max_pulse - self._min_pulse)"),
+                       (p2a, "pulse", "self._min_angle + (pulse - self._min_pulse) / (self._max_pulse - self._min_pulse) * (self._max_angle - self._min_angle)")):
+        rets = [n for n in walk_local(f) if isinstance(n, ast.Return)]
+        subst = {k: v[0] for k, v in Locals(f).defs.items() if len(v) == 1 and isinstance(v[0], ast.expr)}
+        subst.update(derived)
+        try:
+            ok = len(rets) == 1 and rat_equal(rets[0].value, ast.parse(o, mode="eval").body, subst, {})
+        except ValueError:
+            ok = False
+        r.check(ok, f"Servo.{f.name}/linear-map", (m, f), f"{f.name} is not the linear map through the configured end points")
+
+
 def run(cx):
     cx.explanation = (
         "single-writer inventory of every state attribute, guard/bounds analysis of the writer bodies, path-sensitive "
@@ -238,16 +298,7 @@ def run(cx):
         for s in exits:
             for alt in s:
                 r.check("OWN" in alt, f"Servo.{meth}/every-normal-exit-stores", (m, f), f"a path returns from {meth}() without storing the commanded {par}: read() would not return what was written")
-    a2p, p2a = m.func("Servo._angle_to_pulse"), m.func("Servo._pulse_to_angle")
-    for f, src_, o in ((a2p, "angle", "self._min_pulse + (angle - self._min_angle) / (self._max_angle - self._min_angle) * (self._max_pulse - self._min_pulse)"),
-                       (p2a, "pulse", "self._min_angle + (pulse - self._min_pulse) / (self._max_pulse - self._min_pulse) * (self._max_angle - self._min_angle)")):
-        rets = [n for n in walk_local(f) if isinstance(n, ast.Return)]
-        subst = {k: v[0] for k, v in Locals(f).defs.items() if len(v) == 1 and isinstance(v[0], ast.expr)}
-        try:
-            ok = len(rets) == 1 and rat_equal(rets[0].value, ast.parse(o, mode="eval").body, subst, {})
-        except ValueError:
-            ok = False
-        r.check(ok, f"Servo.{f.name}/linear-map", (m, f), f"{f.name} is not the linear map through the configured end points")
+    servo_maps(r, m)
     init = m.func("Servo.__init__")
     gtxt = [norm(n.test) for n in walk_local(init) if isinstance(n, ast.If) and any(isinstance(x, ast.Raise) for x in n.body)]
     r.check("min_angle >= max_angle" in gtxt and "min_pulse_us >= max_pulse_us" in gtxt, "Servo.__init__/rejects-empty-spans", (m, init), f"constructor guards: {gtxt}")
@@ -424,12 +475,20 @@ def run(cx):
             r.check(okd, "RGBLed.fade/step-delay=duration/steps", (m, c_), f"per-step delay `{norm(floc.resolve(c_.args[0]))}` is not duration_ms/steps: the fade could take longer than requested")
             under = any(isinstance(a, ast.If) and norm(a.test) in ("index != steps", "index < steps") for a in m.ancestors(c_))
             r.check(under, "RGBLed.fade/no-sleep-after-last-step", (m, c_), "the last step must not be followed by a sleep")
-        vdef = floc.defs.get("value", [])
-        try:
-            okv = len(vdef) == 1 and rat_equal(vdef[0], ast.parse("current + (goal - current) * index / steps", mode="eval").body, subst, {})
-        except ValueError:
-            okv = False
-        r.check(okv, "RGBLed.fade/interpolation-ends-on-target", (m, vdef[0] if vdef else fd), "interpolated value must be current + (goal-current)*index/steps (exactly the target at index == steps)")
+        from fractions import Fraction
+        hv, _it = host_fade_kernel(m)
+        bad = None
+        for s_ in range(1, 17):
+            for a_, b_ in ((0, 255), (255, 0), (100, 101), (3, 200), (200, 3), (0, 1), (1, 0), (10, 17)):
+                prev = a_
+                for i_ in range(1, s_ + 1):
+                    v_ = hv(a_, b_, i_, s_)
+                    exact = a_ + Fraction((b_ - a_) * i_, s_)
+                    good = isinstance(v_, int) and abs(v_ - exact) <= Fraction(1, 2) and (i_ != s_ or v_ == b_) and min(a_, b_) <= v_ <= max(a_, b_) and ((v_ >= prev) if b_ >= a_ else (v_ <= prev))
+                    prev = v_
+                    if not good and bad is None:
+                        bad = f"fade {a_}->{b_} over {s_} steps: step {i_} gives {v_!r} (exact {float(exact):.3f})"
+        r.check(bad is None, "RGBLed.fade/interpolation-ends-on-target", (m, fd), f"every step must be a nearest integer of current + (goal-current)*index/steps, monotone, exactly the target at index == steps; {bad}")
     # DCMotor
     m = mods["DCMotor"]
     dc = m.cls("DCMotor")
